@@ -55,7 +55,7 @@ def main():
         if r[1] in r[4].split():
             n_own += 1
     n_scope = sum(1 for mp in glob.glob(os.path.join(VERIF, "seeded", "*", "meta.json")) if json.load(open(mp)).get("scope"))
-    out += ["", "%d kept changes; %d caught by at least one check; %d caught by the check of the property they were written against; %d need an environment answer outside every property's quantifier (allocation failure) and are not caught by design." % (n_kept, n_det, n_own, n_scope), ""]
+    out += ["", "%d kept changes; %d caught by at least one check; %d caught by the check of the property they were written against; %d are outside every listed property (2 need an allocation failure at one particular request, 1 is permitted by C14's wording) and are not caught, by design." % (n_kept, n_det, n_own, n_scope), ""]
     open(os.path.join(VERIF, "seeded", "RESULTS.md"), "w").write("\n".join(out))
     print("\n".join(out[-3:]))
 
